@@ -210,6 +210,10 @@ type rtCase struct {
 	required bool   // the statement demands the round trip (false: only "fails or equal, no panic")
 	why      string // why not required
 	over     bool   // the value exceeds a documented protocol limit: a decoder that accepts it allocated more than the limit allows
+	// oversize: a REQUEST_ERROR the server can be made to encode (reason = error text containing the client-chosen path) whose payload
+	// does not fit the 16-bit length. No encoder can make it come back identical; what is emitted must still be one well-formed
+	// frame carrying the same code and a prefix of the reason.
+	oversize bool
 }
 
 func tokensAlphabet() []*parameter.AuthorizationToken {
@@ -337,6 +341,22 @@ func structuredCases(f func(rtCase)) {
 				val: &controlmessage.RequestError{Code: code, Reason: reason}, required: true})
 		}
 	}
+	// REQUEST_ERROR as servers/moq/session.go builds it: Reason = err.Error() of the path manager, e.g.
+	// defs.PathNoStreamAvailableError = "no stream is available on path '<path>'" where <path> is the PATH option of the
+	// client's SETUP (up to ~65531 bytes, no length check in conf.IsValidPathName)
+	noStream := func(pathLen int) string {
+		return "no stream is available on path '" + strings.Repeat("a", pathLen) + "'"
+	}
+	fit := 65535 - 1 - 1 - 3 // code 0x10 (1 byte), retry interval (1 byte), reason length (3 bytes)
+	f(rtCase{codec: "controlmessage", shape: "RequestError no-stream reason, payload=65535 (maximum)",
+		val: &controlmessage.RequestError{Code: controlmessage.RequestErrorCodeDoesNotExist, Reason: noStream(fit - len(noStream(0)))}, required: true})
+	for _, pl := range []int{fit - len(noStream(0)) + 1, 65500, 65531} {
+		f(rtCase{codec: "controlmessage", shape: fmt.Sprintf("RequestError no-stream reason for a %d-byte path (payload over the 16-bit length)", pl),
+			val: &controlmessage.RequestError{Code: controlmessage.RequestErrorCodeDoesNotExist, Reason: noStream(pl)}, oversize: true,
+			why: "the payload does not fit the 16-bit length field"})
+	}
+	f(rtCase{codec: "controlmessage", shape: "Subscribe track name of 70000 bytes (payload over the 16-bit length)",
+		val: &controlmessage.Subscribe{RequestID: 1, TrackName: strings.Repeat("t", 70000)}, why: "the payload does not fit the 16-bit length field"})
 
 	// subgroups
 	payloads := [][]byte{{0x00}, []byte("hello"), bytes.Repeat([]byte{0xAB}, 300), bytes.Repeat([]byte{0xCD}, 70000)}
@@ -394,10 +414,17 @@ func structuredCases(f func(rtCase)) {
 func roundTripStructured(r *vcommon.Run, t *tally) {
 	var cases []rtCase
 	structuredCases(func(c rtCase) { cases = append(cases, c) })
-	sampled := map[string]bool{}
+	sampled := map[string]int{} // wire type -> lowest case index suitable as a sample
 	var smu sync.Mutex
+	// violations are collected per case and reported in case order, so that the replay kept per class is the same on every run
+	type pv struct {
+		key, what string
+		rep       any
+	}
+	found := make([][]pv, len(cases))
 	vcommon.Parallel(len(cases), func(i int) {
 		c := cases[i]
+		violation := func(key, what string, rep any) { found[i] = append(found[i], pv{key, what, rep}) }
 		cd := codecs[c.codec]
 		t.evals.Add(1)
 		want := cd.render(c.val)
@@ -407,8 +434,26 @@ func roundTripStructured(r *vcommon.Run, t *tally) {
 			if len(enc) > 0 && c.codec != "controlmessage" && c.codec != "subgroup" {
 				// MarshalTo must have filled exactly MarshalSize bytes (cd.encode slices to n)
 				if sz := marshalSize(c.val); sz != len(enc) {
-					r.Violation(c.codec+"/marshal-size", fmt.Sprintf("%s: MarshalTo wrote %d bytes, MarshalSize says %d", vcommon.Short(want, 200), len(enc), sz), rep)
+					violation(c.codec+"/marshal-size", fmt.Sprintf("%s: MarshalTo wrote %d bytes, MarshalSize says %d", vcommon.Short(want, 200), len(enc), sz), rep)
 				}
+			}
+			if c.oversize {
+				orig := c.val.(*controlmessage.RequestError)
+				for _, tail := range [][]byte{nil, {0xFF, 0x00, 0x03}} {
+					in := append(append([]byte(nil), enc...), tail...)
+					val2, consumed, err := cd.decode(in, aux)
+					got, _ := val2.(*controlmessage.RequestError)
+					if err != nil || consumed != len(enc) || got == nil || got.Code != orig.Code || got.Reason == "" || !strings.HasPrefix(orig.Reason, got.Reason) {
+						violation("controlmessage/oversize-payload-corrupt-frame/RequestError", fmt.Sprintf(
+							"RequestError{code=%d, reason of %d bytes} is encoded to %d bytes whose 16-bit length field says %d; reading it back gives (%s, consumed=%d, err=%v) "+
+								"instead of one well-formed frame with the same code and a prefix of the reason", uint64(orig.Code), len(orig.Reason), len(enc),
+							int(enc[1])<<8|int(enc[2]), vcommon.Short(cd.render(val2), 80), consumed, err),
+							map[string]any{"type": "controlmessage", "message": "RequestError", "code": uint64(orig.Code), "reasonLen": len(orig.Reason),
+								"reason": vcommon.Short(orig.Reason, 60), "encodingHex": hex(enc)})
+					}
+				}
+				t.d("A controlmessage " + shapeClass(c.shape))
+				return
 			}
 			for _, tail := range [][]byte{nil, {0xFF, 0x00, 0x03}} {
 				if len(tail) > 0 && (c.codec == "properties" || c.codec == "parameters") {
@@ -419,12 +464,12 @@ func roundTripStructured(r *vcommon.Run, t *tally) {
 				rep["encodingHex"] = hex(enc)
 				switch {
 				case err != nil && c.required:
-					r.Violation(c.codec+"/roundtrip-decode-fails/"+shapeClass(c.shape), fmt.Sprintf("%s is encoded to %s which the decoder rejects: %v",
+					violation(c.codec+"/roundtrip-decode-fails/"+shapeClass(c.shape), fmt.Sprintf("%s is encoded to %s which the decoder rejects: %v",
 						vcommon.Short(want, 200), hex(enc), err), rep)
 				case err != nil:
 					t.d("A " + c.codec + " outside the wire type, rejected: " + shapeClass(c.shape))
 				case c.over:
-					r.Violation(c.codec+"/over-limit-value-accepted/"+shapeClass(c.shape), fmt.Sprintf("%s exceeds the protocol limit (%s) but its encoding %s is accepted by the decoder",
+					violation(c.codec+"/over-limit-value-accepted/"+shapeClass(c.shape), fmt.Sprintf("%s exceeds the protocol limit (%s) but its encoding %s is accepted by the decoder",
 						vcommon.Short(want, 120), c.why, hex(enc)), rep)
 				case cd.render(val2) != want:
 					k := c.codec + "/roundtrip-differs/" + shapeClass(c.shape)
@@ -435,9 +480,9 @@ func roundTripStructured(r *vcommon.Run, t *tally) {
 						t.d("A " + c.codec + " outside the wire type, decoded differently: " + shapeClass(c.shape))
 						break
 					}
-					r.Violation(k, fmt.Sprintf("%s -> %s -> %s", vcommon.Short(want, 200), hex(enc), vcommon.Short(cd.render(val2), 200)), rep)
+					violation(k, fmt.Sprintf("%s -> %s -> %s", vcommon.Short(want, 200), hex(enc), vcommon.Short(cd.render(val2), 200)), rep)
 				case consumed != len(enc):
-					r.Violation(c.codec+"/roundtrip-consumed/"+shapeClass(c.shape), fmt.Sprintf("%s: encoding has %d bytes, the decoder consumed %d (%d other bytes follow)",
+					violation(c.codec+"/roundtrip-consumed/"+shapeClass(c.shape), fmt.Sprintf("%s: encoding has %d bytes, the decoder consumed %d (%d other bytes follow)",
 						vcommon.Short(want, 200), len(enc), consumed, len(tail)), rep)
 				}
 			}
@@ -445,9 +490,8 @@ func roundTripStructured(r *vcommon.Run, t *tally) {
 				t.d("A " + c.codec + " " + c.shape)
 			}
 			smu.Lock()
-			if !sampled[c.codec] && c.required && len(enc) > 8 && len(enc) < 60 {
-				sampled[c.codec] = true
-				r.Sample(map[string]any{"part": "A", "type": c.codec, "value": want, "encoding": hex(enc)})
+			if j, ok := sampled[c.codec]; (!ok || i < j) && c.required && len(enc) > 8 && len(enc) < 60 {
+				sampled[c.codec] = i
 			}
 			smu.Unlock()
 		})
@@ -457,9 +501,20 @@ func roundTripStructured(r *vcommon.Run, t *tally) {
 				noteOnce(r, k, "%s (%s): encode/decode panics: %v (not judged: %s)", shapeClass(c.shape), c.codec, p, c.why)
 				return
 			}
-			r.Violation(k, fmt.Sprintf("%s: %v\n%s", vcommon.Short(want, 200), p, vcommon.Short(st, 500)), rep)
+			violation(k, fmt.Sprintf("%s: %v\n%s", vcommon.Short(want, 200), p, vcommon.Short(st, 500)), rep)
 		}
 	})
+	for _, vs := range found {
+		for _, v := range vs {
+			r.Violation(v.key, v.what, v.rep)
+		}
+	}
+	for _, name := range []string{"namespace", "parameters", "properties", "controlmessage", "subgroup"} {
+		if i, ok := sampled[name]; ok {
+			enc, _ := codecs[name].encode(cases[i].val)
+			r.Sample(map[string]any{"part": "A", "type": name, "value": codecs[name].render(cases[i].val), "encoding": hex(enc)})
+		}
+	}
 }
 
 func shapeClass(s string) string {
@@ -514,12 +569,14 @@ func safetyVarint(r *vcommon.Run, t *tally) int64 {
 		local map[vclass]struct{}
 		n     int64
 		cache map[string]int8 // error text -> code, per worker
+		viols [][3]any
 	}
+	byFirst := make([][][3]any, 256)
 	judge := func(w *worker, b []byte) {
 		w.n++
 		defer func() {
 			if p := recover(); p != nil {
-				r.Violation("varint/decode-panics", fmt.Sprintf("decoding %x panicked: %v", b, p), map[string]any{"type": "varint", "inputHex": fmt.Sprintf("%x", b)})
+				w.viols = append(w.viols, [3]any{"varint/decode-panics", fmt.Sprintf("decoding %x panicked: %v", b, p), map[string]any{"type": "varint", "inputHex": fmt.Sprintf("%x", b)}})
 			}
 		}()
 		code := func(e error) int8 {
@@ -543,8 +600,8 @@ func safetyVarint(r *vcommon.Run, t *tally) int64 {
 		}
 		if e1 == nil {
 			if n < 1 || n > len(b) {
-				r.Violation("varint/consumed-out-of-range", fmt.Sprintf("Unmarshal(%x) reports %d consumed bytes", b, n),
-					map[string]any{"type": "varint", "inputHex": fmt.Sprintf("%x", b)})
+				w.viols = append(w.viols, [3]any{"varint/consumed-out-of-range", fmt.Sprintf("Unmarshal(%x) reports %d consumed bytes", b, n),
+					map[string]any{"type": "varint", "inputHex": fmt.Sprintf("%x", b)}})
 				return
 			}
 			// the decoded value is a varint value: it must survive encode -> decode
@@ -553,8 +610,8 @@ func safetyVarint(r *vcommon.Run, t *tally) int64 {
 			var v3 varint.Varint
 			k, e3 := v3.Unmarshal(buf[:m])
 			if e3 != nil || v3 != v1 || k != m {
-				r.Violation("varint/roundtrip-of-decoded-value", fmt.Sprintf("Unmarshal(%x) = %d, which encodes to %x, which decodes to (%d, %v)",
-					b, uint64(v1), buf[:m], uint64(v3), e3), map[string]any{"type": "varint", "inputHex": fmt.Sprintf("%x", b)})
+				w.viols = append(w.viols, [3]any{"varint/roundtrip-of-decoded-value", fmt.Sprintf("Unmarshal(%x) = %d, which encodes to %x, which decodes to (%d, %v)",
+					b, uint64(v1), buf[:m], uint64(v3), e3), map[string]any{"type": "varint", "inputHex": fmt.Sprintf("%x", b)}})
 			}
 			cl.n = int8(n)
 			if m != n {
@@ -612,12 +669,18 @@ func safetyVarint(r *vcommon.Run, t *tally) int64 {
 		}
 		rec(1)
 		total.Add(w.n)
+		byFirst[first] = w.viols
 		emu.Lock()
 		for k := range w.local {
 			all[k] = struct{}{}
 		}
 		emu.Unlock()
 	})
+	for _, vs := range byFirst {
+		for _, v := range vs {
+			r.Violation(v[0].(string), v[1].(string), v[2])
+		}
+	}
 	for cl := range all {
 		um := errNames[cl.unmarshal]
 		if cl.unmarshal <= 1 {
